@@ -247,7 +247,7 @@ def eval_any(case, rng):
         items = items[rng.randrange(0, len(items)):]
     elif items and fault == "snap":
         # a capture taken with a snap length: every frame ends after n octets whatever its length fields say
-        sn = rng.choice([14, 34, 54, 58, 60, 66, 74, 80, 96, 128, 200, 256, 512, 1024])
+        sn = rng.choice([14, 34, 54, 58, 60, 66, 74, 80, 96, 128, 200, 256, 512, 1024, rng.randrange(0, 24), rng.randrange(0, 24), rng.randrange(14, 80)])
         items = [scene.Item(it.frame[:sn], conn=it.conn, dir=it.dir, ts=it.ts, seg=it.seg, tag=it.tag) for it in items]
     elif items and fault == "flip":
         for _ in range(rng.randrange(1, 4)):
